@@ -59,6 +59,12 @@ CHECKS = {
   text="9 script families (value, binding, throwing, undefined variable, syntax error, non-terminating with Env.sleep, slow-but-finishing at 4/6/12 ms) x 12 timeout settings (Control.JavascriptTimeout {0,5ms,negative} x DefaultJavascriptTimeout {10ms,negative} x JavascriptTimeouts on/off) x 3 contexts (Location.RunJavascript, rule condition, rule action through ProcessEvent) run under the scheduler with virtual time; every schedule with at most 2 deviations (3 thorough), where the watchdog timer landing early at any scheduling point is a deviation. The caller must return on every schedule; an overrunning script must yield an error / non-complete node within limit + one wait quantum; throwing and invalid scripts yield errors; within-limit scripts return their value. Busy loops without a scheduling point run natively in child processes against a 20 s deadline (3 isolated runs).",
   note="Code between scheduling points takes no virtual time; an early timer landing models slow real execution, so a finishing script may then end either way (but never hang, never success with a nil value).",
   design="2/C14"),
+ "C13": dict(
+  engine="GEN",
+  technique="bounded-exhaustive enumeration of the input language (skeleton x value documents in every role, at every layer, on both states) on the real code in journaled child processes, with recover / watchdog / process-death attribution and canary traffic after every input",
+  text="Every document (hole at one reserved position - rule, when, pattern, condition, action(s), code, schedule, expires, ttl, deleteWith, id, !props, and/or/not, trigger!, evaluate!, location(s), inherited, uri, variable-looking keys - filled with every value of a pool: 7 leaves, all containers of them to nesting 2 (3 thorough) including empty and heterogeneous ones, variable-looking keys, maps and arrays nested 100 and 3000 deep) is used as fact, rule, pattern, query, event and whole HTTP request body through core.Location, sys.System (with cron hooks) and service.HTTPService.ServeHTTP, on indexed and linear state, each on a fresh pre-populated location and followed by seven canary operations (add, find, get, fire a rule, query, remove, list). Each case is journaled before it runs in a child process: a recovered panic, a call that does not return (re-run alone with a 60 s watchdog), a dead process (re-run alone) and a failing or wrong canary are violations; the supervisor carries on behind a crash.",
+  note="Quick: about 96,000 cases (600,000 guarded calls). The virtual clock is frozen, so JavaScript watchdogs never fire; scripts in the language do not loop (C14 owns runaway scripts). After three hangs of one skeleton the rest of that skeleton is skipped and the run reported as not exhaustive.",
+  design="2/C13"),
  "C15": dict(
   engine="SEQ+SCHED",
   technique="explicit-state model checking: exhaustive BFS over scheduled-rule histories on sys.System with a recording cron service and a which-rule-is-live-where model, plus stateless schedule exploration of the same kinds of history against the real built-in cron under the controlled scheduler with virtual time",
